@@ -11,7 +11,7 @@ TTL_T = "time:600000"     # a time TTL that never expires under the virtual cloc
 
 def _spec(**kw):
     d = dict(fam="h", valid=True, react="t", resume="tail", group=0, fail_on="", outs=[], counter=True,
-             pulse=0, cat=False, slow_on="", after=0,
+             pulse=0, maxpulse=0, cat=False, slow_on="", after=0,
              # commands
              recv=[], terminal="complete", unstamped_error=False, csuffix=".recv", cttl="forever", cappends=[],
              # generators
@@ -42,7 +42,9 @@ def handler(name_of_ret="{name}", react="t", resume="tail", appends=(), ret="rec
     if ro:
         cfg.append("return_options: {" + ", ".join(ro) + "}")
     body = []
-    if react == "t":
+    if react == "t" and pulse:
+        body.append('if $frame.topic == "xs.pulse" { if $env.p >= 2 { return }; $env.p = $env.p + 1 } else if not ($frame.topic | str starts-with "t.") { return }')
+    elif react == "t":
         body.append('if not ($frame.topic | str starts-with "t.") { return }')
     body.append("$env.n = $env.n + 1")
     if slow:
@@ -94,10 +96,11 @@ def handler(name_of_ret="{name}", react="t", resume="tail", appends=(), ret="rec
         outs.append(o)
     for o in outs:
         o.setdefault("ret", False)
-    script = "$env.n = 0\n{\n" + "".join(f"  {c}\n" for c in cfg) + "  run: {|frame|\n" + "".join(
+    script = "$env.n = 0\n$env.p = 0\n{\n" + "".join(f"  {c}\n" for c in cfg) + "  run: {|frame|\n" + "".join(
         f"    {b}\n" for b in body) + "  }\n}\n"
     return dict(_spec(fam="h", react=react, resume=resume, group=sum(1 for o in outs if o["stored"]),
                       fail_on="t.fail" if fail else "", outs=outs, counter=ret not in ("bool",), pulse=pulse,
+                      maxpulse=2 if pulse else 0,
                       cat=cat, slow_on="t.slow" if slow else ""), script=script)
 
 
@@ -126,6 +129,7 @@ HANDLERS = {
     "h_all": handler(react="all"),
     "h_all_head": handler(react="all", resume="head"),
     "h_slow": handler(slow=True),
+    "h_pulse": handler(pulse=40),
     # C15: shapes
     "h_a1": handler(appends=[A1]),
     "h_a2": handler(appends=[A1, A2U]),
@@ -159,7 +163,7 @@ def handler_after(action_index, **kw):
 
 
 # ------------------------------------------------------------------------------ commands
-def command(values=("r1", "r2"), appends=0, err=None, suffix=None, ttl=None, slow=False, tag="v", cat=False):
+def command(values=("r1", "r2"), appends=0, err=None, suffix=None, ttl=None, slow=False, tag="v", cat=False, env=False):
     cfg = []
     ro = []
     if suffix:
@@ -178,6 +182,10 @@ def command(values=("r1", "r2"), appends=0, err=None, suffix=None, ttl=None, slo
     if err == "runtime":
         body.append('error make {msg: "cmd boom"}')
     extra = ", x: (.cat | get id)" if cat else ""
+    if env:
+        # per-call isolation: state set by one call must not be visible to the next
+        body.append("$env.q = ($env.q? | default 0) + 1")
+        extra += ", n: $env.q"
     vals = " ".join('{k: "%s.%s", tid: $frame.id, t: $frame.topic%s}' % (tag, v, extra) for v in values)
     body.append(f"[{vals}]" if len(values) != 1 else vals)
     script = "{\n" + "".join(f"  {c}\n" for c in cfg) + "  run: {|frame|\n" + "".join(f"    {b}\n" for b in body) + "  }\n}\n"
@@ -196,6 +204,7 @@ COMMANDS = {
     "c_suffix": command(values=("r1", "r2"), suffix=".res", ttl=TTL_T),
     "c_slow": command(values=("r1", "r2"), slow=True, tag="s"),
     "c_cat": command(values=("r1",), cat=True),
+    "c_env": command(values=("r1", "r2"), env=True, tag="e"),
     "c_bad_parse": dict(_spec(fam="c", valid=False), script="{run: {|frame| ( }"),
     "c_bad_norun": dict(_spec(fam="c", valid=False), script='{foo: "bar"}'),
 }
@@ -213,7 +222,9 @@ GENERATORS = {
     "g_stream0": generator('[] | each {|x| $x}', ()),
     "g_single": generator('"v1"', ("v1",)),
     "g_empty": generator("null | ignore", ()),
-    "g_duplex": generator('each {|x| $"e:($x)"}', (), duplex=True),
+    # duplex: the input is a byte stream of the sends' contents; `lines` makes one value per send
+    # (the client sends newline-terminated strings)
+    "g_duplex": generator('lines | each {|x| $"e:($x)"}', (), duplex=True),
     # DESIGN 6 #12: the worker thread panics after .start
     "g_bad_parse": generator("this is not ( valid nu", panics=True),
     "g_ints": generator("[1 2 3] | each {|x| $x}", panics=True),
